@@ -39,8 +39,8 @@ SCALARS_T = list(L.SC)
 STRUCTS = list(L.STRUCT_ORDER)
 
 TIERS = {
-    "quick": {"fmt_cfgs": ["BufFmt_q1", "BufFmt_q2", "BufFmt_q3"], "geom_cfg": "BufGeom_quick", "hangs": 3, "crashes": 120, "timeout": 900, "min_cases": 8000},
-    "thorough": {"fmt_cfgs": ["BufFmt_t1", "BufFmt_t2", "BufFmt_t3", "BufFmt_t4"], "geom_cfg": "BufGeom_thorough", "hangs": 12, "crashes": 2000, "timeout": 2400, "min_cases": 100000},
+    "quick": {"fmt_cfgs": ["BufFmt_q1", "BufFmt_q2"], "geom_cfg": "BufGeom_quick", "hangs": 2, "crashes": 60, "timeout": 900, "min_cases": 8000},
+    "thorough": {"fmt_cfgs": ["BufFmt_t1", "BufFmt_t2", "BufFmt_t3", "BufFmt_t4", "BufFmt_t5", "BufFmt_t6"], "geom_cfg": "BufGeom_thorough", "hangs": 8, "crashes": 600, "timeout": 2400, "min_cases": 100000},
 }
 
 GEOM_ACTIONS = ["Transpose", "Second", "Reverse", "Broadcast", "PadRows", "Indirect"]
@@ -220,8 +220,8 @@ def run(tier, seed):
     nw = max(2, core.NCPU // len(T["fmt_cfgs"]))
     with concurrent.futures.ThreadPoolExecutor(max_workers=len(T["fmt_cfgs"]) + 2) as ex:
         bfut = ex.submit(_build, src)
-        gfut = ex.submit(_tlc, "BufGeom", T["geom_cfg"], workers=2, timeout=T["timeout"], deadlock=False, coverage=True)
-        futs = [(cfg, ex.submit(_tlc, "BufFmt", cfg, workers=nw, timeout=T["timeout"], deadlock=False, coverage=True,
+        gfut = ex.submit(_tlc, "BufGeom", T["geom_cfg"], workers=2, timeout=T["timeout"], deadlock=False)
+        futs = [(cfg, ex.submit(_tlc, "BufFmt", cfg, workers=nw, timeout=T["timeout"], deadlock=False,
                                 heap="4g" if tier == "thorough" else None)) for cfg in T["fmt_cfgs"]]
         results = [(cfg, f.result()) for cfg, f in futs]
         build = bfut.result()
@@ -245,8 +245,6 @@ def run(tier, seed):
                 ncase += 1
         if ncase != r.distinct:
             core.die("%s: %d cases published for %d distinct states" % (cfg, ncase, r.distinct))
-        for a, (d, _) in r.coverage.items():
-            actcov[a] += d
     cov["tlc"].append(dict(gres.summary(), config=T["geom_cfg"]))
     if not gres.ok:
         sys.stderr.write(gres.out[-6000:])
@@ -256,13 +254,16 @@ def run(tier, seed):
         core.die("%s: %d cases published for %d distinct states" % (T["geom_cfg"], len(gcases), gres.distinct))
     states += gres.generated
     distinct += gres.distinct
-    gdead = [a for a in GEOM_ACTIONS if not gres.coverage.get(a, (0, 0))[0]]
+    gact = collections.Counter(g["act"] for g in gcases)
+    gdead = [a for a in GEOM_ACTIONS if not gact.get(a)]
     gkl = geom_classes(gcases)
-    cov["geometry_action_coverage"] = {a: gres.coverage.get(a, (0, 0))[0] for a in GEOM_ACTIONS}
+    cov["geometry_action_coverage"] = {a: gact.get(a, 0) for a in GEOM_ACTIONS}
     cov["geometry_case_classes"] = gkl
     if gdead or [k for k in GEOM_NEEDED if not gkl.get(k)]:
         core.die("vacuous geometry model: actions %s, classes %s" % (gdead, [k for k in GEOM_NEEDED if not gkl.get(k)]))
     log(t0, "TLC done: %d states, %d format cases, %d dtypes, %d geometry cases" % (states, len(cases), len(dtypes), len(gcases)))
+    for rec in cases:
+        actcov[rec["act"]] += 1
     cov["action_coverage"] = {a: actcov.get(a, 0) for a in ACTIONS}
     dead = [a for a in ACTIONS if not actcov.get(a)]
     if dead:
@@ -312,22 +313,23 @@ def run(tier, seed):
         r = cases[ci]
         t = text_of(r["f"])
         risky = r["ir"] in ("crash", "hang")
-        if r["ir"] == "hang":
-            if hang_budget <= 0:
-                skipped_hangs += 1
-                continue
-            hang_budget -= 1
-        if r["ir"] == "crash":       # every such call costs a process: a seeded sample of them is executed
-            if crash_budget <= 0:
-                skipped_crashes += 1
-                continue
-            crash_budget -= 1
         modes = [("fmt", r["isz"], r["v"], r["ir"])]
         if r["vd"]:
             modes.append(("dtype", dtypes[r["dt"]]["size"], r["vd"], r["ird"]))
         for cid in by_model[r["dt"]]:
             for path in ("mv", "bf"):
                 for mode, isz, v, ir in modes:
+                    # a call predicted to die costs a process (and a hang a CPU second): a seeded sample of them is executed
+                    if ir == "hang":
+                        if hang_budget <= 0:
+                            skipped_hangs += 1
+                            continue
+                        hang_budget -= 1
+                    if ir == "crash":
+                        if crash_budget <= 0:
+                            skipped_crashes += 1
+                            continue
+                        crash_budget -= 1
                     calls.append(["%s_%s" % (path, cid), t, isz, [L.NITEMS], None, 0, None, risky])
                     meta.append((ci, cid, path, mode, isz, v, ir))
     # part G: the exporter of every geometry case, acquired through the declared axes
@@ -455,7 +457,7 @@ def run(tier, seed):
         "traces_validated_against_impl": n_exec, "evaluations": n_exec, "distinct_nontrivial": len(nontrivial),
         "cases_published": len(cases) + len(gcases), "format_cases": len(cases), "geometry_cases": len(gcases),
         "geometry_executions": n_geom, "executed_per_path_and_verdict": dict(per),
-        "predicted_hangs_not_executed": skipped_hangs, "predicted_crashes_not_executed": skipped_crashes, "transcription_vs_code": dict(fidelity),
+        "predicted_hang_calls_not_executed": skipped_hangs, "predicted_crash_calls_not_executed": skipped_crashes, "transcription_vs_code": dict(fidelity),
         "acquisitions_with_unbalanced_release": unbalanced, "value_oracle": dict(pvals), "binding_selftest_cases": n_demo,
         "dtypes": sorted(dtypes), "c_types": [cid for cid, _ in ids], "exhaustive": True,
         "rule": "every state published by TLC (a dtype and an edited spine format) is executed for every C type of the dtype, through the "
